@@ -71,10 +71,16 @@ RecProgs(k) ==
     compose |-> <<Let("c", FnLit(<<"p", "q", "v">>, <<Ret(Call("p", <<Call("q", <<Id("v")>>)>>))>>)),
                 Let("inc", FnLit(<<"m">>, <<Ret(Bin("+", Id("m"), IntL(1)))>>)), Let("dbl", FnLit(<<"m">>, <<Ret(Bin("*", Id("m"), IntL(2)))>>)),
                 Text(<<"[">>), Emit(Call("c", <<Id("inc"), Id("dbl"), IntL(k)>>)), Text(<<",">>), Emit(Call("c", <<Id("dbl"), Id("inc"), IntL(k)>>)), Text(<<"]">>)>>,
+    \* calls nested in the arguments of calls: every argument value evaluated earlier must survive the inner call
+    nestarg |-> <<Let("pair", FnLit(<<"x", "y">>, <<Ret(Bin("+", Bin("+", Id("x"), Str(<<"-">>)), Id("y")))>>)),
+                  Let("up", FnLit(<<"s">>, <<Ret(Bin("+", Id("s"), Str(<<"!">>)))>>)),
+                  Text(<<"[">>), Emit(Call("pair", <<Str(<<"k">>), Call("up", <<Str(<<"x">>)>>)>>)), Text(<<",">>),
+                  Emit(Call("pair", <<Call("up", <<Str(<<"a">>)>>), Call("up", <<Str(<<"b">>)>>)>>)), Text(<<",">>),
+                  Emit(Call("pair", <<Str(<<"k">>), Call("pair", <<Str(<<"m">>), Call("up", <<Str(<<"n">>)>>)>>)>>)), Text(<<"]">>)>>,
     \* the name at a call site is bound to another function between two executions of that call (loop variable)
     rebind |-> <<Let("inc", FnLit(<<"m">>, <<Ret(Bin("+", Id("m"), IntL(1)))>>)), Let("dbl", FnLit(<<"m">>, <<Ret(Bin("*", Id("m"), IntL(2)))>>)),
                 Text(<<"[">>), Emit(For("", "w", Arr(<<Id("inc"), Id("dbl"), Id("inc")>>), <<Emit(Call("w", <<IntL(k)>>)), Text(<<";">>)>>)), Text(<<"]">>)>> ]
-RecNames == {"sum", "down", "fib", "after", "twice", "apply", "compose", "rebind"}
+RecNames == {"sum", "down", "fib", "after", "twice", "apply", "compose", "rebind", "nestarg"}
 RECURSIVE Fib(_)
 Fib(k) == IF k < 2 THEN k ELSE Fib(k - 1) + Fib(k - 2)
 RECURSIVE Rep(_, _)
@@ -87,6 +93,7 @@ RecText(nm, k) ==
     [] nm = "twice" -> <<"[">> \o IntChars(k) \o <<"x">> \o IntChars(k) \o <<"]">>
     [] nm = "apply" -> <<"[">> \o IntChars(k + 1) \o <<",">> \o IntChars(2 * k) \o <<",">> \o IntChars(k + 1) \o <<"]">>
     [] nm = "compose" -> <<"[">> \o IntChars(2 * k + 1) \o <<",">> \o IntChars(2 * (k + 1)) \o <<"]">>
+    [] nm = "nestarg" -> <<"[", "k", "-", "x", "!", ",", "a", "!", "-", "b", "!", ",", "k", "-", "m", "-", "n", "!", "]">>
     [] nm = "rebind" -> <<"[">> \o IntChars(k + 1) \o <<";">> \o IntChars(2 * k) \o <<";">> \o IntChars(k + 1) \o <<";", "]">>
 
 VARIABLES n, links, dflt, args, use, res
